@@ -1,1 +1,182 @@
-// harness for rs/anda_kip/src/parser/kml.rs (mounted by #[cfg(kani)] hook)
+// @module parser::kml::verif_kani
+// Kani harnesses for rs/anda_kip/src/parser/kml.rs — property C16: the guard tables behind "no
+// accepted mutation rewrites the payload of an Assertion, Evidence or Proposition" and, for injected
+// (pre-parsed) trees, the tree validator.
+// Oracles are written from SPECIFICATION.md (13.7 assertion payload, 15.5 evidence payload, 12.5
+// proposition tuple; citations appear under both of the field spellings the data model uses).
+use super::*;
+include!("/verif/harness/common.rs");
+
+fn eq(a: &[u8], b: &[u8]) -> bool {
+    if a.len() != b.len() {
+        return false;
+    }
+    let mut i = 0;
+    while i < a.len() {
+        if a[i] != b[i] {
+            return false;
+        }
+        i += 1;
+    }
+    true
+}
+const ASSERTION_PAYLOAD: [&[u8]; 10] = [b"proposition", b"proposition_id", b"asserted_by", b"stance", b"mode", b"confidence", b"asserted_at", b"valid_time", b"evidence", b"evidence_refs"];
+const EVIDENCE_PAYLOAD: [&[u8]; 5] = [b"evidence_class", b"payload", b"content_digest", b"media_type", b"observed_at"];
+const PROPOSITION_TUPLE: [&[u8]; 3] = [b"subject", b"predicate", b"object"];
+fn listed(name: &[u8], list: &[&[u8]]) -> bool {
+    let mut i = 0;
+    let mut hit = false;
+    while i < list.len() {
+        if eq(name, list[i]) {
+            hit = true;
+        }
+        i += 1;
+    }
+    hit
+}
+fn sym_name<const L: usize>() -> [u8; L] {
+    let b: [u8; L] = kani::any();
+    let mut i = 0;
+    while i < L {
+        kani::assume(b[i] >= 0x20 && b[i] < 0x7f);
+        i += 1;
+    }
+    b
+}
+
+/// kind: 0 Assertion, 1 Evidence, 2 Proposition, 3 Concept, 4 Activity, 5 None
+fn kind_of(k: u8) -> Option<BoundKind> {
+    match k {
+        0 => Some(BoundKind::Assertion),
+        1 => Some(BoundKind::Evidence),
+        2 => Some(BoundKind::Proposition),
+        3 => Some(BoundKind::Concept),
+        4 => Some(BoundKind::Activity),
+        _ => None,
+    }
+}
+fn immutable_for(k: u8, name: &[u8]) -> bool {
+    match k {
+        0 => listed(name, &ASSERTION_PAYLOAD),
+        1 => listed(name, &EVIDENCE_PAYLOAD),
+        2 => listed(name, &PROPOSITION_TUPLE),
+        _ => false,
+    }
+}
+
+macro_rules! immutable_len {
+    ($name:ident, $l:expr) => {
+        #[kani::proof]
+        #[kani::unwind(17)]
+        fn $name() {
+            let b = sym_name::<$l>();
+            let field = unsafe { std::str::from_utf8_unchecked(&b) };
+            let k: u8 = kani::any();
+            kani::assume(k < 6);
+            let r = guard_immutable_field(field, kind_of(k));
+            assert!(r.is_err() == immutable_for(k, &b), "SET FIELDS on a bound Assertion / Evidence / Proposition is refused iff the field is part of its immutable payload; other kinds and unbound targets are not restricted here");
+            kani::cover!(r.is_err() && k == 0, "an Assertion payload field of this length refused");
+            kani::cover!(r.is_ok() && k == 0, "an ordinary field on an Assertion accepted");
+            kani::cover!(r.is_ok() && k == 3, "a Concept field accepted");
+        }
+    };
+}
+// @check id=C16 tier=quick cap=600 role=immutable_payload_table harness=c16_immutable_len4,c16_immutable_len6,c16_immutable_len8,c16_immutable_len10,c16_immutable_len11,c16_immutable_len13,c16_immutable_len14
+// @fns parser::kml::guard_immutable_field
+// @bound every printable-ASCII field name of length 4, 6, 8, 10, 11, 13, 14 (the lengths of the Assertion payload names; symbolic bytes) x target kind symbolic over Assertion / Evidence / Proposition / Concept / Activity / unbound
+immutable_len!(c16_immutable_len4, 4);
+immutable_len!(c16_immutable_len6, 6);
+immutable_len!(c16_immutable_len8, 8);
+immutable_len!(c16_immutable_len10, 10);
+immutable_len!(c16_immutable_len11, 11);
+immutable_len!(c16_immutable_len13, 13);
+immutable_len!(c16_immutable_len14, 14);
+
+macro_rules! immutable_len_other {
+    ($name:ident, $l:expr, $kind:expr) => {
+        #[kani::proof]
+        #[kani::unwind(17)]
+        fn $name() {
+            let b = sym_name::<$l>();
+            let field = unsafe { std::str::from_utf8_unchecked(&b) };
+            let k: u8 = kani::any();
+            kani::assume(k < 6);
+            let r = guard_immutable_field(field, kind_of(k));
+            assert!(r.is_err() == immutable_for(k, &b), "refused iff part of the bound kind's immutable payload");
+            kani::cover!(r.is_err() && k == $kind, "a payload field of this length refused");
+            kani::cover!(r.is_ok() && k == $kind, "an ordinary field accepted");
+        }
+    };
+}
+// @check id=C16 tier=quick cap=600 role=immutable_payload_table harness=c16_immutable_len7,c16_immutable_len9
+// @fns parser::kml::guard_immutable_field
+// @bound lengths 7 (payload, subject) and 9 (predicate): Evidence / Proposition names with no Assertion name of that length
+immutable_len_other!(c16_immutable_len7, 7, 1);
+immutable_len_other!(c16_immutable_len9, 9, 2);
+
+// @check id=C16 tier=quick cap=600 role=structural_mutation_table
+// @fns parser::kml::guard_structural_mutation
+// @bound target kind symbolic over all BoundKinds and unbound
+#[kani::proof]
+#[kani::unwind(2)]
+fn c16_structural_mutation_only_on_concepts() {
+    let k: u8 = kani::any();
+    kani::assume(k < 6);
+    let r = guard_structural_mutation(kind_of(k));
+    assert!(r.is_err() == (k == 0 || k == 1 || k == 2 || k == 4), "SET / UNSET STRUCTURAL is refused on Assertion, Evidence, Proposition and Activity targets");
+    kani::cover!(r.is_ok() && k == 3, "concept topology is mutable");
+    kani::cover!(r.is_err() && k == 4, "activity refused");
+}
+
+// guard_update on an injected UPDATE tree: the kind is resolved from the WHERE block, the field is symbolic
+fn update_tree(kind: u8, field: String, structural: bool) -> UpdateStatement {
+    let var = String::from("a");
+    let clause = match kind {
+        0 => WhereClause::Assertion { variable: var.clone(), matcher: ObjectMatcher::new() },
+        1 => WhereClause::Evidence { variable: var.clone(), matcher: ObjectMatcher::new() },
+        _ => WhereClause::Activity { variable: var.clone(), matcher: ObjectMatcher::new() },
+    };
+    let action = if structural {
+        UpdateAction::UnsetStructural(Vec::new())
+    } else {
+        UpdateAction::SetFields(vec![(field, MutationValue::Value(KipValue::Null))])
+    };
+    UpdateStatement {
+        target: ElementRef::Handle(var),
+        expect_version: None,
+        actions: vec![action],
+        where_clauses: Some(vec![clause]),
+        limit: None,
+    }
+}
+// (bound_kind_of recurses through Not / Optional / Union clauses and Kani has one bound for loops and
+// recursion: with the memcmp loops of 6-7 byte names needing unwind >= 8, CBMC unfolds the infeasible
+// recursive arms 8 deep and the query did not finish in 400 s. The 4-byte name "mode" keeps the bound
+// at 6.)
+// @check id=C16 tier=thorough cap=1500 role=guard_update_injected_tree harness=c16_guard_update_assertion_len4
+// @fns parser::kml::guard_update, parser::kml::bound_kind_of, parser::kml::guard_immutable_field, parser::kml::guard_structural_mutation
+// @bound an injected UPDATE ?a SET FIELDS { <name>: null } WHERE { ?a ASSERTION {} } with every printable name of length 4, or UNSET STRUCTURAL instead (symbolic choice)
+#[kani::proof]
+#[kani::unwind(6)]
+fn c16_guard_update_assertion_len4() {
+    let b = sym_name::<4>();
+    let structural: bool = kani::any();
+    let st = update_tree(0, unsafe { String::from_utf8_unchecked(b.to_vec()) }, structural);
+    let r = guard_update(&st);
+    assert!(r.is_err() == (structural || immutable_for(0, &b)), "an UPDATE bound to an Assertion may not touch its payload or its citations");
+    kani::cover!(r.is_err() && !structural, "payload field refused");
+    kani::cover!(r.is_ok(), "ordinary field accepted");
+    std::mem::forget((r, st));
+}
+
+// @check id=C16 tier=thorough cap=300 expect=fail role=witness
+// @fns parser::kml::guard_immutable_field
+// @bound vacuity twin: must come back FAILED
+#[kani::proof]
+#[kani::unwind(17)]
+fn c16_witness_must_fail() {
+    let b = sym_name::<6>();
+    let field = unsafe { std::str::from_utf8_unchecked(&b) };
+    let r = guard_immutable_field(field, Some(BoundKind::Assertion));
+    assert!(r.is_err() && r.is_ok(), "reachability witness");
+}
